@@ -23,7 +23,7 @@ Positions == {
   "task.value", "task.cmds", "task.deps", "task.vars", "task.env", "task.sources", "task.generates", "task.status", "task.preconditions",
   "task.requires", "task.platforms", "task.aliases", "task.prompt", "task.dir", "task.dotenv", "task.run", "task.label", "task.desc",
   "cmd.value", "cmd.cmd", "cmd.task", "cmd.defer", "cmd.for", "cmd.vars", "cmd.platforms", "cmd.set",
-  "for.list", "for.var", "for.matrix", "for.matrixrow", "dep.value", "dep.task", "dep.vars", "dep.for",
+  "for.list", "for.var", "for.matrix", "for.matrixrow", "for.varmatrix", "dep.value", "dep.task", "dep.vars", "dep.for",
   "requires.vars", "requires.var", "requires.enum", "precondition.value", "precondition.sh", "source.value", "source.exclude", "output.group" }
 
 Kinds == {"null", "empty-string", "scalar", "int", "bool", "empty-seq", "seq-scalar", "seq-null", "seq-map", "empty-map", "map-unknown", "map-null-value", "nested-seq", "tilde", "template"}
